@@ -26,7 +26,8 @@ RULE = ("cases = op sequences (register method/async/blocking/subscription(+raw)
         "to membership in both modules), sorted method_names() with callback kind of EVERY live module, and for call/remove "
         "the identity (tag) of the handler reached through raw_json_request.  Random sequences (length 1..14, 4-name "
         "alphabets incl. case/blank/empty/non-ASCII variants, up to 5 modules, most end with a call sweep over all "
-        "modules x names) + exhaustive sequences over a 2-name (and, thorough, 3-name) alphabet.  distinct non-trivial = "
+        "modules x names) + exhaustive sequences (reduced op alphabet, each followed by the call sweep): 2 names length<=3 "
+        "(quick), and in thorough also 2 names length 4, 3 and 4 names length<=3.  distinct non-trivial = "
         "distinct result lines containing at least one failure, removal or dispatch observation")
 TRUSTED = [
     "harness/src/bin/registry.rs: handler identity is observed through closures answering with their tag; an unsubscribe "
@@ -188,11 +189,33 @@ def exhaustive(names, length, maxmods):
     yield from rec([], 1, length)
 
 
+# hand-picked edge cases, always run first (plus corpus/C13.lines when present: one sequence per line)
+CORPUS = [
+    "mm:0:0 m:0:61:1 mm:0:0 ca:0:61",                                        # merging one's own clone: empty ok, else clash
+    "cl:0 m:0:61:1 m:1:61:2 ca:0:61 ca:1:61",                                # same name, different handlers per clone
+    "s:0:61:62:1 cl:0 rv:0:61 rv:0:62 ca:1:61 ca:1:62 ca:0:61 ca:0:62",      # clone keeps both subscription methods
+    "m:0:61:1 al:0:62:61 rv:0:61 ca:0:62 ca:0:61 al:0:61:62 ca:0:61",        # alias survives removal of the original
+    "s:0:61:61:1 m:0:61:2 s:0:61:61:3 r:0:61:62:4 r:0:62:61:5 s:0:62:63:6 ca:0:62 ca:0:63",
+    "m:0:61:1 cl:0 m:1:61:2 m:0:62:3 ca:1:62 ca:1:61 ca:0:62",               # failed register on a shared module
+    "al:0:61:61 m:0:61:1 al:0:61:61 al:0:62:63 al:0:61:63",                  # alias error precedence
+    "mn:0:s.61.62.1 mn:0:s.62.63.2 mn:0:m.63.3,m.63.4 ca:0:61 ca:0:62 ca:0:63",
+    "m:0:61:1 nw m:1:62:2 mm:0:1 mm:1:0 rv:1:62 mm:1:0 ca:1:61 ca:1:62 ca:0:62",
+    "m:0:-:1 ca:0:- rv:0:- ca:0:- m:0:2d:2 ca:0:2d",                         # the empty name is a name
+    "m:0:61:1 m:3:61:2 mm:0:7 cl:9 ca:5:61 rv:4:61 al:2:61:61 mn:6:_",       # modules that do not exist
+]
+
+
 def gen_cases(ctx):
     rng = ctx.rng
-    cases = []   # (bucket, line)
+    cases = [("corpus", l) for l in CORPUS]   # (bucket, line)
+    try:
+        import os
+        with open(os.path.join(vlib.ROOT, "corpus", "C13.lines")) as fh:
+            cases += [("corpus", l.strip()) for l in fh if l.strip() and not l.startswith("#")]
+    except OSError:
+        pass
     weights = [w for _, w in ALPHABETS]
-    for _ in range(ctx.scale(30000, 250000)):
+    for _ in range(ctx.scale(40000, 500000)):
         names = rng.choices([a for a, _ in ALPHABETS], weights)[0]
         g = random_seq(rng, names, rng.randint(1, 14))
         if rng.random() < 0.7:
@@ -201,7 +224,8 @@ def gen_cases(ctx):
             cases.append(("random", g.line()))
     ex = [(["a", "b"], 1, 3), (["a", "b"], 2, 3), (["a", "b"], 3, 3)]
     if ctx.thorough or ctx.search_mode:
-        ex += [(["a", "b"], 4, 3), (["a", "b", "c"], 2, 2), (["a", "b", "c"], 3, 2)]
+        ex += [(["a", "b"], 4, 3), (["a", "b", "c"], 2, 2), (["a", "b", "c"], 3, 2),
+               (["a", "b", "c", "d"], 2, 2), (["a", "b", "c", "d"], 3, 2)]
     for names, length, maxmods in ex:
         for line in exhaustive(names, length, maxmods):
             cases.append(("exhaustive-%dnames-len%d" % (len(names), length), line))
@@ -460,28 +484,31 @@ def shrink(line, kind, key):
 def run(ctx):
     ctx.engines = ["registry (harness/src/bin/registry.rs vs modelrun/registry_driver.ml over coq/Model/Registry.v)"]
     cases = gen_cases(ctx)
-    lines = [l for _, l in cases]
-    ri, rm = run_both(lines)
     shrunk = {}
     nops = 0
-    for (bucket, line), a, b in zip(cases, ri, rm):
-        ctx.count(bucket)
-        ops = line.split()
-        nops += len(ops)
-        for o in ops:
-            ctx.count("op:" + o.split(":")[0])
-        for tok in a.split(" "):
-            o = tok.partition("@")[0]
-            ctx.count("obs:" + ("error" if (o.startswith("E:") or "]E:" in o) else "not-found" if o == "call:nf" else
-                                "dispatched" if o.startswith("call:") else "removed" if o.startswith("rm:") and o != "rm:none" else "other"))
-        nontrivial = ("E:" in a) or ("call:" in a) or ("rm:" in a)
-        ctx.record({"line": line}, a, nontrivial=nontrivial)
-        for kind, key, detail in verdict(line, a, b):
-            case = {"line": line}
-            if (kind, key) not in shrunk:
-                shrunk[(kind, key)] = shrink(line, kind, key)
-                case = {"line": shrunk[(kind, key)], "original": line}
-            ctx.fail(kind, key, case, detail)
+    BATCH = 60000     # result lines carry a dump per op: keep only one batch of them in memory
+    for lo in range(0, len(cases), BATCH):
+        batch = cases[lo:lo + BATCH]
+        ri, rm = run_both([l for _, l in batch])
+        for (bucket, line), a, b in zip(batch, ri, rm):
+            ctx.count(bucket)
+            ops = line.split()
+            nops += len(ops)
+            for o in ops:
+                ctx.count("op:" + o.split(":")[0])
+            for tok in a.split(" "):
+                o = tok.partition("@")[0]
+                ctx.count("obs:" + ("error" if (o.startswith("E:") or "]E:" in o) else "not-found" if o == "call:nf" else
+                                    "dispatched" if o.startswith("call:") else
+                                    "removed" if o.startswith("rm:") and o != "rm:none" else "other"))
+            nontrivial = ("E:" in a) or ("call:" in a) or ("rm:" in a)
+            ctx.record({"line": line}, a, nontrivial=nontrivial)
+            for kind, key, detail in verdict(line, a, b):
+                case = {"line": line}
+                if (kind, key) not in shrunk:
+                    shrunk[(kind, key)] = shrink(line, kind, key)
+                    case = {"line": shrunk[(kind, key)], "original": line}
+                ctx.fail(kind, key, case, detail)
     ctx.extra["ops_executed"] = nops
     ctx.exhaustive = True
 
